@@ -32,6 +32,7 @@ extern "C" int LLVMFuzzerInitialize(int* argc, char*** argv) {
     fz::rewriteArgs(argc, argv);
     ComputerPlayer::initEngine();
     verif::clockNanosHook = fakeClock;
+    fz::runPendingReplay();
     return 0;
 }
 
